@@ -12,6 +12,76 @@ def scenarios(prop, tier):
     out += _aave(prop, tier)
     out += _deribit(prop, tier)
     out += _gmx(prop, tier)
+    out += _squeeth(prop, tier)
+    out += _uni(prop, tier)
+    return out
+
+
+def _uni(prop, tier):
+    from ..props.c09 import SHADOWS
+
+    out = []
+    kw = dict(shadows=SHADOWS, nlsat=False, relax_int=True, max_paths=800, time_budget_s=240, query_timeout_ms=20000, witness_cap=16)
+    ticks = (200013,) if tier == "quick" else (200013, -276327)
+    for t in ticks:
+        for t0q in (True, False):
+            for aq in ("same", "other"):
+                if tier == "quick" and aq == "other" and not t0q:
+                    continue
+                base = dict(prop=prop, market="uni", tick=t, t0q=t0q, account_quote=aq)
+                tag = f"uni/t{t}/{'t0quote' if t0q else 't0base'}/{aq}"
+                if prop == "C01":
+                    for poss in (("inside",), ("below", "above"), ("inside", "wide")):
+                        out.append(Scenario(f"{tag}/valuation/{'+'.join(poss)}", nv.nv_step, params=dict(base, op=None, positions=poss, allow_dry=True), entry=("Broker.get_account_status", "UniLpMarket.get_market_balance"), **kw))
+                cases = []
+                for rg in ("below", "inside", "above"):
+                    cases.append(("add", dict(positions=(), add_range=rg)))
+                    cases.append(("remove", dict(positions=(rg,))))
+                    cases.append(("remove", dict(positions=(rg,), partial=True, collect=False)))
+                cases += [
+                    ("add", dict(positions=("inside",), add_range="inside")),
+                    ("collect", dict(positions=("inside",))),
+                    ("collect", dict(positions=("inside",), allow_dry=True, caps=False)),
+                    ("remove", dict(positions=("inside", "wide"), partial=True)),
+                    ("buy", dict(positions=("inside",))),
+                    ("sell", dict(positions=())),
+                    ("swap_b2q", dict(positions=())),
+                    ("swap_q2b", dict(positions=("below",))),
+                    ("even_rebalance", dict(positions=())),
+                    ("add_by_value", dict(positions=())),
+                    ("remove_all", dict(positions=("inside", "below"))),
+                ]
+                for op, extra in cases:
+                    if tier == "quick" and aq == "other" and op not in ("add", "remove", "buy", "collect"):
+                        continue
+                    nm = f"{tag}/{op}/" + ",".join(f"{k}={'+'.join(v) if isinstance(v, tuple) else v}" for k, v in extra.items())
+                    out.append(Scenario(nm, nv.nv_step, params=dict(base, op=op, **extra), entry=(f"UniLpMarket.{op}", "Broker.get_account_status"), canary=_canary(prop) if (op, t0q, aq, extra.get("add_range")) == ("add", True, "same", "inside") and not extra["positions"] else None, **kw))
+                chains = [("add", "remove", dict(positions=(), add_range="inside")), ("remove", "collect", dict(positions=("inside",), partial=True, collect=False)), ("buy", "sell", dict(positions=()))]
+                for op, op2, extra in chains:
+                    if tier == "quick" and (aq == "other" or not t0q):
+                        continue
+                    out.append(Scenario(f"{tag}/{op}+{op2}", nv.nv_step, params=dict(base, op=op, op2=op2, **extra), entry=(f"UniLpMarket.{op}", f"UniLpMarket.{op2}"), **kw))
+    return out
+
+
+def _squeeth(prop, tier):
+    from .squeeth import SHADOWS
+
+    out = []
+    kw = dict(shadows=SHADOWS, nlsat=False, relax_int=True, max_paths=800, query_timeout_ms=20000)
+    if prop == "C01":
+        for lp, free in ((False, False), (True, False), (True, True), (False, True)):
+            out.append(Scenario(f"squeeth/valuation/{'lp' if lp else 'nolp'}{'+free' if free else ''}", nv.nv_step, params=dict(prop=prop, market="squeeth", op=None, lp=lp, free_lp=free), entry=("Broker.get_account_status", "SqueethMarket.get_market_balance", "UniLpMarket.get_market_balance"), **kw))
+    cases = [("mint", {}), ("mint", dict(lp=True)), ("open", {}), ("deposit", {}), ("burn_withdraw", {}), ("burn_withdraw", dict(lp=True)), ("withdraw_lp", dict(lp=True)), ("deposit_lp", dict(free_lp=True)), ("buy_squeeth", {}), ("sell_squeeth", {}), ("deposit", dict(short=False))]
+    for op, extra in cases:
+        nm = f"squeeth/{op}" + "".join(f"/{k}" for k in extra)
+        out.append(Scenario(nm, nv.nv_step, params=dict(dict(prop=prop, market="squeeth", op=op), **extra), entry=(f"SqueethMarket.{op}", "Broker.get_account_status"), canary=_canary(prop) if nm == "squeeth/deposit" else None, **kw))
+    chains = [("mint", "burn_withdraw"), ("deposit_lp", "withdraw_lp"), ("buy_squeeth", "sell_squeeth")]
+    for op, op2 in chains:
+        if tier == "quick" and op != "deposit_lp":
+            continue
+        extra = dict(free_lp=True) if op == "deposit_lp" else {}
+        out.append(Scenario(f"squeeth/{op}+{op2}", nv.nv_step, params=dict(dict(prop=prop, market="squeeth", op=op, op2=op2), **extra), entry=(f"SqueethMarket.{op}", f"SqueethMarket.{op2}"), **kw))
     return out
 
 
@@ -92,11 +162,12 @@ def _aave(prop, tier):
                 )
     # two-operation chains at the same frozen row (same token): the second operation sees the caches the first one left
     chains = [("supply", "withdraw"), ("borrow", "borrow"), ("borrow", "repay"), ("withdraw", "withdraw"), ("supply", "borrow"), ("repay", "borrow"), ("withdraw", "supply")]
-    for sn in ("B", "C") if tier == "quick" else tuple(shapes):
+    quick_chains = {("borrow", "borrow", "DAI"), ("supply", "withdraw", "WETH"), ("withdraw", "withdraw", "WETH"), ("borrow", "repay", "DAI"), ("withdraw", "supply", "WETH")}
+    for sn in ("A",) if tier == "quick" else tuple(shapes):
         shape = shapes[sn]
         for op, op2 in chains:
             for tok in shape:
-                if tier == "quick" and tok not in ("WETH", "DAI", "WMATIC", "USDT"):
+                if tier == "quick" and (op, op2, tok) not in quick_chains:
                     continue
                 out.append(
                     Scenario(
